@@ -1,3 +1,194 @@
 package sctp
 
-func c17EndToEnd(j *Job) {}
+import (
+	"fmt"
+	"strings"
+	"time"
+)
+
+// wrongKindScenario: one real endpoint (interleaving on/off) against a scripted peer that did
+// / did not offer interleaving; a DATA-class or FORWARD-class chunk of either kind is injected
+// with a new, duplicate or out-of-window TSN.  Exactly the wrong-kind cells must be answered
+// with a protocol-violation ABORT.
+func wrongKindScenario(localIL, peerIL bool, inject string, tsnKind string) *Scenario {
+	return &Scenario{
+		Name:    "wrongkind",
+		Horizon: 60 * time.Second,
+		Setup:   func(m *Sim) { m.W.delay = [2]time.Duration{time.Millisecond, time.Millisecond} },
+		Body: func(m *Sim) {
+			cfg := epCfg{Server: true, NoInterleave: !localIL, MTU: 228, RTOMax: 4000, InitTSN: 50}
+			p := newScripted(m, cfg, peerIL, false)
+			if !p.connectServer() {
+				m.Failf("e2.base", "handshake failed")
+				c03Teardown(m, p)
+				return
+			}
+			a := p.a
+			negotiated := localIL && peerIL
+			md, _ := a.Metadata()
+			if md.MessageInterleavingEnabled != negotiated {
+				m.Failf("kind.negotiation", "local=%v peer=%v: interleaving=%v", localIL, peerIL, md.MessageInterleavingEnabled)
+			}
+			p.startReader(1)
+			p.sendMsg(1, 20, 1) // right kind, establishes a cumulative point
+			peerLast := a.payloadQueue.cumulativeTSN
+			tsn := peerLast + 1
+			switch tsnKind {
+			case "dup":
+				tsn = peerLast
+			case "far":
+				tsn = peerLast + a.payloadQueue.maxTSNOffset + 9
+			}
+			var raw []byte
+			wantAbort := false
+			switch inject {
+			case "DATA":
+				raw = p.pkt(chunkBytes(wDATA, 3, wDataVal(tsn, 1, 7, 53, []byte("kind-test"))))
+				wantAbort = negotiated
+			case "IDATA":
+				raw = p.pkt(chunkBytes(wIDATA, 3, wIDataVal(tsn, 1, 7, 53, []byte("kind-test"))))
+				wantAbort = !negotiated
+			case "FWD":
+				raw = p.pkt(chunkBytes(wFWDTSN, 0, wFwdVal(tsn, nil)))
+				wantAbort = negotiated
+			case "IFWD":
+				raw = p.pkt(chunkBytes(wIFWDTSN, 0, wIFwdVal(tsn, nil)))
+				wantAbort = !negotiated
+			}
+			out := p.inject(raw)
+			gotAbort := false
+			for _, o := range out {
+				if o.dec == nil {
+					continue
+				}
+				for _, c := range o.dec.Chunks {
+					if c.Typ == wABORT {
+						gotAbort = true
+						okCause := false
+						for _, cs := range c.Causes {
+							if cs.Typ == 13 {
+								okCause = true
+							}
+						}
+						if !okCause {
+							m.Failf("kind.abort-cause", "ABORT without a protocol-violation cause: %s", c.Summary())
+						}
+					}
+				}
+			}
+			if gotAbort != wantAbort {
+				m.Failf("kind.abort", "local interleaving=%v peer=%v: %s with %s TSN: ABORT sent=%v, want %v", localIL, peerIL, inject, tsnKind, gotAbort, wantAbort)
+			}
+			m.Observe("abort=%v", gotAbort)
+			c03Teardown(m, p)
+		},
+		Final: func(m *Sim, x *Exec) { generalVerdicts(m, x, false) },
+	}
+}
+
+// contiguityOracle: without interleaving the fragments of one message occupy consecutive
+// TSNs; with interleaving the fragments of each message leave in fragment order.
+func contiguityOracle(m *Sim, f *wireFacts) {
+	for snd := 0; snd < 2; snd++ {
+		order := f.XmitOrder[snd] // first-transmission order == TSN assignment order
+		type key struct {
+			sid uint16
+			u   bool
+			mid uint32
+		}
+		lastFSN := map[key]uint32{}
+		var open *xmitRec
+		var openTSN uint32
+		for _, tsn := range order {
+			r := f.Xmit[snd][tsn]
+			if r.Typ == wDATA {
+				if open != nil {
+					if r.SID != open.SID || r.SSN != open.SSN || r.U != open.U || r.B || tsn != openTSN+1 {
+						m.Failf("kind.contiguity", "endpoint %d: TSN %d (sid %d ssn %d %v) interrupts the fragments of a message of stream %d that started earlier", snd, tsn, r.SID, r.SSN, r.B, open.SID)
+						return
+					}
+				} else if !r.B {
+					m.Failf("kind.contiguity", "endpoint %d: TSN %d is a non-first fragment without a preceding first fragment", snd, tsn)
+					return
+				}
+				open, openTSN = r, tsn
+				if r.E {
+					open = nil
+				}
+				continue
+			}
+			k := key{r.SID, r.U, r.MID}
+			if r.B {
+				if _, dup := lastFSN[k]; dup {
+					m.Failf("kind.fragorder", "endpoint %d: message (sid %d mid %d) started twice", snd, r.SID, r.MID)
+					return
+				}
+				lastFSN[k] = 0
+			} else {
+				prev, ok := lastFSN[k]
+				if !ok || r.FSN != prev+1 {
+					m.Failf("kind.fragorder", "endpoint %d: fragment %d of message (sid %d mid %d) sent after fragment %d", snd, r.FSN, r.SID, r.MID, prev)
+					return
+				}
+				lastFSN[k] = r.FSN
+			}
+		}
+	}
+}
+
+func c17EndToEnd(j *Job) {
+	// negotiation over all 16 option combinations (kind monitor on every packet)
+	extraMon = monOpts{Kind: true}
+	for opt := 0; opt < 16; opt++ {
+		for ri, r := range []struct{ a, b bool }{{false, true}, {false, false}} {
+			ha := epCfg{Server: r.a, NoInterleave: opt&1 != 0, ZeroChecksum: opt&2 != 0, RTOMax: 4000, InitTSN: 0xFFFFFFFE, MTU: 228}
+			hb := epCfg{Server: r.b, NoInterleave: opt&4 != 0, ZeroChecksum: opt&8 != 0, RTOMax: 4000, InitTSN: 5, MTU: 228}
+			k := 0
+			if j.Thorough() {
+				k = 1
+			}
+			j.Explore(fmt.Sprintf("neg/%d/opt%d", ri, opt), hsScenario(&hsSpec{A: ha, B: hb, Faults: allFaults}), Budget{K: k}, nil)
+		}
+	}
+	extraMon = monOpts{}
+	// wrong-kind matrix
+	for _, l := range []bool{false, true} {
+		for _, p := range []bool{false, true} {
+			for _, inj := range []string{"DATA", "IDATA", "FWD", "IFWD"} {
+				for _, tk := range []string{"new", "dup", "far"} {
+					j.Explore(fmt.Sprintf("kind/l%v/p%v/%s/%s", l, p, inj, tk), wrongKindScenario(l, p, inj, tk), Budget{}, nil)
+				}
+			}
+		}
+	}
+	// contiguity / fragment order on the wire with concurrent writers: all schedules with <= D deviations
+	for _, mode := range stdModes() {
+		mtu := uint32(100)
+		il := !mode.A.NoInterleave
+		P := int(maxPayloadSizeForMTU(mtu, il))
+		spec := &xferSpec{A: withBase(mode.A, mtu, 0xFFFFFFFC, 4000), B: withBase(mode.B, mtu, 3, 4000),
+			Streams: []streamSpec{
+				{SID: 1, From: 0, Msgs: []msgSpec{{Size: 3*P + 1, PPI: 53}, {Size: 5, PPI: 53}}},
+				{SID: 2, From: 0, Unordered: true, Msgs: []msgSpec{{Size: 2*P + 2, PPI: 51}, {Size: 6, PPI: 51}}},
+				{SID: 3, From: 0, Msgs: []msgSpec{{Size: 2 * P, PPI: 51}}},
+			}}
+		spec.Final = func(m *Sim, x *Exec, r *xferResult) {
+			generalVerdicts(m, x, false)
+			f := runWireMonitors(m, x, monOpts{Kind: true})
+			contiguityOracle(m, f)
+			for _, st := range spec.Streams {
+				checkDelivery(m, "delivery", st, r.Written[st.SID], r.Read[st.SID], true)
+			}
+			m.Observe("%s", deliverySummary(spec, r))
+		}
+		res := &xferResult{}
+		d := 1
+		if j.Thorough() {
+			d = 2
+		}
+		j.Explore("wire/"+mode.Name+"/"+strings.Repeat("w", 3), xferScenario(spec, res), Budget{D: d}, nil)
+		if j.capped() {
+			return
+		}
+	}
+}
